@@ -124,7 +124,7 @@ class C16(Prop):
             outb = os.path.join(d, f"o{k}_0." + ("bb" if bed else "bw"))
             if not os.path.exists(outb):
                 continue
-            for qi in range(3):
+            for qi in range(5):
                 nm = r.choice(names)
                 pts = bbgen.boundary_points(data[nm], sizes[nm])
                 a, b = r.choice(pts), r.choice(pts)
@@ -132,7 +132,21 @@ class C16(Prop):
                     a, b = b, a
                 if a == b:
                     continue
-                style = [["--chrom", nm, "--start", str(a), "--end", str(b)], [f"-chrom={nm}", f"-start={a}", f"-end={b}"]][qi % 2]
+                # both bounds, one-sided restrictions (the other bound defaults to 0 / the chromosome length), chromosome only
+                shape = (qi + k) % 5
+                if shape == 2:
+                    b = sizes[nm]
+                    style = ["--chrom", nm, "--start", str(a)]
+                elif shape == 3:
+                    a = 0
+                    style = [f"-chrom={nm}", f"-end={b}"]
+                elif shape == 4:
+                    a, b = 0, sizes[nm]
+                    style = ["--chrom", nm]
+                else:
+                    style = [["--chrom", nm, "--start", str(a), "--end", str(b)], [f"-chrom={nm}", f"-start={a}", f"-end={b}"]][qi % 2]
+                if a >= b:
+                    continue
                 back = os.path.join(d, f"r{k}_{qi}.txt")
                 subprocess.run([repo_bin(from_tool), outb, back] + style, capture_output=True, text=True, timeout=120)
                 runs += 1
